@@ -1,7 +1,7 @@
 (* Driver for the extracted C18 model: one case per line (format: see
    harness/c18_harness.cpp), prints one result line per case in the format of
    the harness.  I/O only - every decision is taken by the extracted Coq
-   functions (eval_case, user_arg, digest, unlines). *)
+   functions (eval_case_txt, check_texts, user_arg, digest, unlines). *)
 open C18_model
 
 let rec nat_of_int i = if i <= 0 then O else S (nat_of_int (i - 1))
@@ -81,13 +81,24 @@ let () =
       match String.split_on_char ' ' (String.trim line) with
       | id :: toks when id <> "" ->
           let flags = ref 0 and width = ref 80 and cmds = ref [] and args = ref [] in
+          let t1 = ref None and t2 = ref None in
+          let text spec =
+            let pos = match spec.[0] with 'b' -> UBefore | 'a' -> UAfter | _ -> UUnused in
+            Some (pos, bytes_of_hex (String.sub spec 2 (String.length spec - 2))) in
           (try
              List.iter (fun t ->
                  if starts "f=" t then flags := int_of_string (after "f=" t)
                  else if starts "w=" t then width := int_of_string (after "w=" t)
                  else if starts "c=" t then cmds := List.map parse_cmd (split_on ',' (after "c=" t))
-                 else if starts "a:" t then args := parse_arg t :: !args) toks;
-             let r = eval_case (n_of_int !flags) (nat_of_int !width) (List.rev !args) !cmds in
+                 else if starts "a:" t then args := parse_arg t :: !args
+                 else if starts "t1=" t then t1 := text (after "t1=" t)
+                 else if starts "t2=" t then t2 := text (after "t2=" t)) toks;
+             (match check_texts !t1 !t2 with
+              | Ok _ -> ()
+              | Err e -> raise (Setup (err_name e))
+              | Fault f -> raise (Setup (fault_name f)));
+             let _ = eval_case in
+             let r = eval_case_txt !t1 !t2 (n_of_int !flags) (nat_of_int !width) (List.rev !args) !cmds in
              (match r with
               | Ok s ->
                   let o = unlines s.hout and e = unlines s.herr in
